@@ -170,14 +170,33 @@ class HydroProbe:
         return tn, mom, prof
 
 
-def velocities(rng, hyd, n, cb):
-    """Wall velocities between vMin and 0.99 with corner emphasis."""
+def velocities(rng, hyd, n, cb, probe=None):
+    """Wall velocities between vMin and 0.99 with corner emphasis.  With a probe, the
+    window between the sound speed behind the wall evaluated at T_n and at the actual T-
+    (where 'deflagration or hybrid?' depends on which temperature a shortcut uses) is
+    sampled explicitly."""
     vmin = max(hyd.vMin, 1e-3) * (1 + 1e-3)
     vJ = hyd.vJ
     out = []
     kinds = []
+    cb_window = None
+    if probe is not None:
+        try:
+            m = probe.matching(min(cb, vJ) * 0.999)
+            if not m.get("none") and not m["error"] and m["Tm"] > 0:
+                cbm = math.sqrt(probe.eos.ref("L", m["Tm"])["csq"])
+                lo_, hi_ = sorted((cbm, cb))
+                if hi_ - lo_ > 1e-5 and hi_ < vJ:
+                    cb_window = (lo_, hi_)
+        except Exception:
+            cb_window = None
     for i in range(n):
         r = rng.random()
+        if cb_window is not None and i % 4 == 1:
+            v = float(rng.uniform(*cb_window))
+            out.append(min(max(v, vmin), 0.99))
+            kinds.append("between-cb(T-)-and-cb(Tn)")
+            continue
         if r < 0.18 and vmin < 0.1:
             v = float(np.exp(rng.uniform(np.log(vmin), np.log(0.1))))
             k = "slow"
@@ -191,7 +210,7 @@ def velocities(rng, hyd, n, cb):
             v = float(rng.uniform(min(cb, vJ), vJ))
             k = "hybrid-range"
         elif r < 0.76:
-            v = float(vJ * (1 - 10 ** rng.uniform(-6, -2)))
+            v = float(vJ * (1 - 10 ** rng.uniform(-5, -1.5)))
             k = "below-vJ"
         elif r < 0.86:
             v = float(min(0.99, vJ * (1 + 10 ** rng.uniform(-6, -2))))
